@@ -18,19 +18,19 @@ import (
 // job is one unit of work of a child process: a model of one of the pools
 // with all its renderings, or one lexical class.
 type job struct {
-	Pool string // "witness", "fixed", "multidir", "core", "stress"
+	Pool string // "witness", "fixed", "multidir", "history", "core", "stress"
 	I    int
 }
 
 type bounds struct {
-	core, stress, fixed, renderings, jsonSample, multidir int
+	core, stress, fixed, renderings, jsonSample, multidir, history int
 }
 
 func tierBounds(thorough bool) bounds {
 	if thorough {
-		return bounds{core: 5000, stress: 1000, fixed: 50, renderings: 8, jsonSample: 250, multidir: 600}
+		return bounds{core: 5000, stress: 1000, fixed: 50, renderings: 8, jsonSample: 250, multidir: 600, history: 400}
 	}
-	return bounds{core: 150, stress: 30, fixed: 4, renderings: 4, jsonSample: 24, multidir: 40}
+	return bounds{core: 150, stress: 30, fixed: 4, renderings: 4, jsonSample: 24, multidir: 40, history: 24}
 }
 
 // jobList is a pure function of the tier.
@@ -45,6 +45,9 @@ func jobList(thorough bool) []job {
 	}
 	for i := 0; i < b.multidir; i++ {
 		out = append(out, job{"multidir", i})
+	}
+	for i := 0; i < b.history; i++ {
+		out = append(out, job{"history", i})
 	}
 	for i := 0; i < b.core; i++ {
 		out = append(out, job{"core", i})
@@ -156,6 +159,9 @@ type jobResult struct {
 	Sample     map[string]interface{} `json:"sample,omitempty"`
 	Hang       bool                   `json:"hang,omitempty"`
 	HangPath   string                 `json:"hang_path,omitempty"`
+	// history jobs: the steps taken, joined with ">"
+	History    string   `json:"history,omitempty"`
+	HistoryOps []string `json:"history_ops,omitempty"`
 	// witness jobs
 	Class    string   `json:"class,omitempty"`
 	Pinned   string   `json:"pinned,omitempty"`
@@ -209,6 +215,8 @@ func workerMain(args []string) int {
 		var r *jobResult
 		if j.Pool == "witness" {
 			r = runWitnessJob(j, filepath.Join(base, fmt.Sprintf("wit%d", j.I)))
+		} else if j.Pool == "history" {
+			r = runHistoryJob(run, j, filepath.Join(base, fmt.Sprintf("history%d", j.I)))
 		} else {
 			r = runModelJob(run, j, b, filepath.Join(base, fmt.Sprintf("%s%d", j.Pool, j.I)))
 		}
